@@ -1249,8 +1249,90 @@ def c13(ctx):
     return result(ctx["pid"], "exploration", cov, viol, t0, ["A5; FixedSize(4) archives so that the expected chunking of the prior output is the aligned 4-byte grid"])
 
 
+# ------------------------------------------------------------------ C09: the chunks found in a byte stream do not depend on its context
+
+def c09(ctx):
+    """Differential on the real binary: what the clone finds in a seed must not depend on the seeds given before or
+    after it, and the same bytes must yield the same chunks whether they are the prior output (--seed-output) or a
+    seed file. Read from the command's own report (bytes used from seeds)."""
+    import re
+    t0 = time.time()
+    bita = ctx["bita"]
+    root = tempfile.mkdtemp(prefix="verif-c09-")
+    viol = Viol("c09")
+    n = 0
+    distinct = set()
+
+    def used(r):
+        m = re.search(r"and (?:[0-9.]+ [KMG]iB \()?(\d+) bytes\)? from seeds", r.stdout.decode(errors="replace"))
+        return int(m.group(1)) if m else None
+
+    try:
+        S = pattern(40000, 3)
+        chunkers = [("rollsum", ["--hash-chunking", "RollSum", "--rolling-window-size", "16B", "--min-chunk-size", "64B", "--avg-chunk-size", "256B", "--max-chunk-size", "1KiB"]),
+                    ("buzhash", ["--hash-chunking", "BuzHash", "--rolling-window-size", "16B", "--min-chunk-size", "64B", "--avg-chunk-size", "256B", "--max-chunk-size", "1KiB"]),
+                    ("fixed", ["--fixed-size", "512B"])]
+        for cname, cargs in chunkers:
+            d = os.path.join(root, cname)
+            os.makedirs(d)
+            src, arc, B = os.path.join(d, "s.bin"), os.path.join(d, "a.cba"), os.path.join(d, "B.bin")
+            for pth in (src, B):
+                with open(pth, "wb") as f:
+                    f.write(S)
+            r = sh([bita, "compress", "--compression", "none", "-i", src, arc] + cargs)
+            if r.returncode != 0:
+                raise RuntimeError("compress failed: " + r.stderr.decode())
+            r = sh([bita, "clone", "--seed", B, arc, os.path.join(d, "o-base")])
+            base = used(r)
+            if r.returncode != 0 or base is None:
+                raise RuntimeError("baseline clone failed / report line not understood: " + r.stdout.decode()[-200:])
+            # D1: an unrelated seed before or after B changes nothing
+            for k in (1, 63, 1001, 4097):
+                A = os.path.join(d, f"A{k}.bin")
+                with open(A, "wb") as f:
+                    f.write(bytes((i * 7 + k) % 251 for i in range(k)))
+                for order in ("A,B", "B,A", "A,A,B"):
+                    seeds = []
+                    for x in order.split(","):
+                        seeds += ["--seed", A if x == "A" else B]
+                    out = os.path.join(d, f"o-{k}-{order}")
+                    r = sh([bita, "clone"] + seeds + [arc, out])
+                    n += 1
+                    u = used(r)
+                    detail = {"chunker": cname, "unrelated_seed_bytes": k, "seed_order": order, "bytes_from_seeds": u, "with_B_alone": base}
+                    if r.returncode != 0:
+                        viol.add("valid-clone-failed", dict(detail, stderr=r.stderr.decode()[-300:]))
+                    elif u != base:
+                        viol.add("chunks-found-in-a-seed-depend-on-the-other-seeds", detail)
+                    distinct.add((cname, k, order))
+                    os.remove(out)
+            # D2: the same bytes as prior output and as seed file
+            for pname, P in (("junk+source+tail", bytes((i * 13 + 5) % 241 for i in range(3001)) + S + b"tail" * 300),
+                             ("rotated", S[15000:] + S[:15000]),
+                             ("first-half", S[:20000])):
+                pf, po = os.path.join(d, f"P-{pname}.bin"), os.path.join(d, f"out-{pname}.bin")
+                for pth in (pf, po):
+                    with open(pth, "wb") as f:
+                        f.write(P)
+                r1 = sh([bita, "clone", "--seed", pf, arc, os.path.join(d, f"fresh-{pname}.bin")])
+                r2 = sh([bita, "clone", "--seed-output", arc, po])
+                n += 1
+                u1, u2 = used(r1), used(r2)
+                detail = {"chunker": cname, "bytes": pname, "bytes_used_as_seed_file": u1, "bytes_used_as_prior_output": u2}
+                if r1.returncode != 0 or r2.returncode != 0:
+                    viol.add("valid-clone-failed", dict(detail, stderr=(r1.stderr + r2.stderr).decode()[-300:]))
+                elif u1 != u2:
+                    viol.add("chunks-found-differ-between-seed-file-and-prior-output", detail)
+                distinct.add((cname, pname))
+    finally:
+        shutil.rmtree(root, ignore_errors=True)
+    cov = {"evaluations": n, "cli_context_cases": n, "distinct_nontrivial": len(distinct), "exhaustive": True,
+           "rule": "real binary, differential: a 40 kB source under {RollSum, BuzHash, FixedSize}; the bytes the clone reports as taken from seeds with seed B alone must equal those with an unrelated seed of 1 / 63 / 1001 / 4097 bytes given before B, after B, or twice before B; and the same bytes {junk+source+tail, rotated source, first half} must yield the same reuse as a seed file and as prior output (--seed-output)"}
+    return result(ctx["pid"], "exploration", cov, viol, t0, ["A5; the command's own report line is the observation"])
+
+
 def replay(ctx, detail):
-    fn = {"c01": c01, "c02": c02, "c03": c03, "c06": c06, "c11": c11, "c12": c12, "c13": c13}[detail.get("function", "c01")]
+    fn = {"c09": c09, "c01": c01, "c02": c02, "c03": c03, "c06": c06, "c11": c11, "c12": c12, "c13": c13}[detail.get("function", "c01")]
     res = fn(dict(ctx, tier="quick"))
     return bool(res["violation_classes"])
 
@@ -1260,5 +1342,5 @@ if __name__ == "__main__":
     import sys
     fn = sys.argv[1]
     tier = sys.argv[2] if len(sys.argv) > 2 else "quick"
-    r = {"c01": c01, "c02": c02, "c03": c03, "c06": c06, "c11": c11, "c12": c12, "c13": c13}[fn]({"pid": fn.upper(), "tier": tier, "seed": 0, "bita": "/verif/build/bita/release/bita", "vh": "", "verif": "/verif", "build": "/verif/build"})
+    r = {"c09": c09, "c01": c01, "c02": c02, "c03": c03, "c06": c06, "c11": c11, "c12": c12, "c13": c13}[fn]({"pid": fn.upper(), "tier": tier, "seed": 0, "bita": "/verif/build/bita/release/bita", "vh": "", "verif": "/verif", "build": "/verif/build"})
     print(json.dumps(r, indent=1)[:5000])
